@@ -13,6 +13,7 @@ import (
 //   - for phis: which incoming value was selected (by the predecessor taken),
 //   - for SSA values compared with nil: whether they are nil on this path,
 //   - for boolean SSA values branched on: their truth on this path,
+//
 // and prunes branches that contradict what the path already established.
 // Everything else is explored path-insensitively. The state space is
 // (block, facts); facts only grow along a path and are few.
